@@ -301,13 +301,15 @@ func (d *Directory) WriteDirectory(wcd, weod io.Writer, forceZip64 bool) error {
 		count++
 		size += uint64(len(blob))
 	}
+	if weod == nil {
+		// entries only
+		return buf.Flush()
+	}
 	if wcd != weod {
 		if err := buf.Flush(); err != nil {
 			return err
 		}
 		buf.Reset(weod)
-	} else if weod == nil {
-		return nil
 	}
 	var end zipEndRecord
 	if count >= uint16Max || size >= uint32Max || cdoff >= uint32Max || forceZip64 {
